@@ -18,6 +18,7 @@ import Driver.Abi
 import Driver.Journal
 import Driver.JsonRpc
 import Driver.NodeCache
+import Driver.NodeSync
 /-
 One line per handler object. The first handler that understands a line answers it.
 -/
@@ -45,6 +46,7 @@ def registry : List Obj := [
   pureObj VerifyD.pureVerify,
   pureObj pureProto,
   mkObj ([] : SyncSt) syncStep,
+  mkObj ({} : NsSt) nsStep,
   contractObj,
   rewardsNodeObj,
   pureObj pureAbi,
